@@ -152,6 +152,9 @@ def _client_scenario(seed: int) -> dict[str, Any]:
             out_events.append({"ev": "ret", "kind": ending})
             if T is not None and elapsed > T + 1e-9:
                 problems.append(f"{op}(timeout={T}) took {elapsed} on the fake clock")
+            if op in ("recv", "send") and lock.held:
+                # whoever comes next would wait for ever (or time out with the data at hand): the budget of the NEXT call is gone
+                problems.append(f"{op}(timeout={T}) ended ({ending}) and left the client's lock taken")
             try:
                 client.close()
             except Exception:  # noqa: BLE001
